@@ -16,15 +16,19 @@ pub fn run(seed: u64, tier: &str, out: &mut Out) {
         let pb = ProgressBar::with_draw_target(Some(10), ProgressDrawTarget::term_like(Box::new(rec.clone())));
         let mut case = String::from("TAB");
         let mut has_style = false;
+        // independent bookkeeping for the oracle: current tab width, texts as set, what the custom key writes
+        let (mut tw, mut msg0, mut pfx0, mut key0) = (8usize, String::new(), String::new(), String::new());
+        const KEYS: [&str; 4] = ["x\ty", "a\tb\tc", "\t\t", "no tab"];
+        let mut set_style = |pb: &ProgressBar, k: usize| { let text = KEYS[k]; pb.set_style(ProgressStyle::with_template("a\tb {prefix}|{msg}|{k}").unwrap().with_key("k", move |_: &ProgressState, w: &mut dyn std::fmt::Write| { w.write_str(text).unwrap() })); };
         for _ in 0..k {
             match rng.below(5) {
-                0 | 1 => { let w = *rng.pick(&[0usize, 1, 2, 4, 8, 13]); case += &format!(" ; tw {w}"); pb.set_tab_width(w); }
-                2 => { case += " ; style"; has_style = true; pb.set_style(ProgressStyle::with_template("a\tb {prefix}|{msg}|{k}").unwrap().with_key("k", |_: &ProgressState, w: &mut dyn std::fmt::Write| { write!(w, "x\ty").unwrap() })); }
-                3 => { let t = *rng.pick(&texts); case += &format!(" ; msg {}", cps(t)); pb.set_message(t); }
-                _ => { let t = *rng.pick(&texts); case += &format!(" ; prefix {}", cps(t)); pb.set_prefix(t); }
+                0 | 1 => { let w = *rng.pick(&[0usize, 0, 1, 2, 4, 8, 13]); case += &format!(" ; tw {w}"); pb.set_tab_width(w); tw = w; }
+                2 => { let k = rng.below(4) as usize; case += &format!(" ; style {k}"); has_style = true; set_style(&pb, k); key0 = KEYS[k].to_string(); }
+                3 => { let t = *rng.pick(&texts); case += &format!(" ; msg {}", cps(t)); pb.set_message(t); msg0 = t.to_string(); }
+                _ => { let t = *rng.pick(&texts); case += &format!(" ; prefix {}", cps(t)); pb.set_prefix(t); pfx0 = t.to_string(); }
             }
         }
-        if !has_style { case += " ; style"; pb.set_style(ProgressStyle::with_template("a\tb {prefix}|{msg}|{k}").unwrap().with_key("k", |_: &ProgressState, w: &mut dyn std::fmt::Write| { write!(w, "x\ty").unwrap() })); }
+        if !has_style { case += " ; style 0"; set_style(&pb, 0); key0 = KEYS[0].to_string(); }
         { let mut st = rec.st.lock().unwrap(); st.ops.clear(); }
         pb.tick();
         let st = rec.st.lock().unwrap();
@@ -32,7 +36,11 @@ pub fn run(seed: u64, tier: &str, out: &mut Out) {
         let tab_seen = st.ops.iter().any(|o| matches!(o, Op::Str(s) | Op::Line(s) if s.contains('\t')));
         drop(st);
         let (m, p) = (pb.message(), pb.prefix());
-        let verdict = if tab_seen || m.contains('\t') || p.contains('\t') { format!("FAIL tab reached the terminal or a getter: line={line:?} msg={m:?} prefix={p:?}") } else { "ok".into() };
+        let ex = |t: &str| t.replace('\t', &" ".repeat(tw));
+        let want_line = format!("{}{}|{}|{}", ex("a\tb "), ex(&pfx0), ex(&msg0), ex(&key0));
+        let verdict = if tab_seen || m.contains('\t') || p.contains('\t') { format!("FAIL tab reached the terminal or a getter: line={line:?} msg={m:?} prefix={p:?}") }
+            else if m != ex(&msg0) || p != ex(&pfx0) { format!("FAIL getter-not-expanded tab width {tw}: message()={m:?} wanted {:?}, prefix()={p:?} wanted {:?}", ex(&msg0), ex(&pfx0)) }
+            else if line.trim_end() != want_line.trim_end() { format!("FAIL line-not-expanded tab width {tw}: line={line:?} wanted {want_line:?}") } else { "ok".into() };
         std::mem::forget(pb);
         out.emit(&case, &format!("line={} msg={} prefix={} ORACLE {verdict}", show(&line), show(&m), show(&p)));
     }
